@@ -146,17 +146,25 @@ def configure(ignored, form, nbs=()):
         cats = [c for c in CATS if c in ignored]
         by_config, by_flag = cats[::2], cats[1::2]
         flags = ['-' + FLAG[c].upper() for c in by_flag]
+        # through the diff command, or through the git diff driver's `diff` sub-command (section GitDiff; git's calling convention)
+        driver = sum(len(c) for c in cats) % 2 == 1
+        section = 'GitDiff' if driver else 'NbDiff'
         d = tempfile.mkdtemp(prefix='nbdime-verif-c14-')
         old = os.getcwd()
         saved = {k: os.environ.get(k) for k in ('JUPYTER_CONFIG_DIR', 'JUPYTER_CONFIG_PATH', 'JUPYTER_NO_CONFIG', 'HOME')}
         try:
             with open(os.path.join(d, 'nbdime_config.json'), 'w') as fh:
-                _json.dump({'NbDiff': {c: False for c in by_config}}, fh)
+                _json.dump({section: {c: False for c in by_config}}, fh)
             os.environ.update({'JUPYTER_CONFIG_DIR': os.path.join(d, 'none'), 'JUPYTER_CONFIG_PATH': os.path.join(d, 'none'), 'HOME': d})
             os.environ.pop('JUPYTER_NO_CONFIG', None)
             os.chdir(d)
-            parser = nbdiffapp._build_arg_parser(prog='nbdiff')        # the name the console script runs under
-            ns = parser.parse_args(['a.ipynb', 'b.ipynb'] + flags)
+            if driver:
+                from nbdime.vcs.git import diffdriver
+                parser = diffdriver._build_arg_parser()
+                ns = parser.parse_args(['diff'] + flags + ['nb.ipynb', 'a.ipynb', '0' * 40, '100644', 'b.ipynb', '1' * 40, '100644'])
+            else:
+                parser = nbdiffapp._build_arg_parser(prog='nbdiff')        # the name the console script runs under
+                ns = parser.parse_args(['a.ipynb', 'b.ipynb'] + flags)
             nargs.process_diff_flags(ns)
         finally:
             os.chdir(old)
@@ -166,7 +174,7 @@ def configure(ignored, form, nbs=()):
                 else:
                     os.environ[k] = v
             shutil.rmtree(d, ignore_errors=True)
-        return {'config NbDiff': {c: False for c in by_config}, 'flags': flags}
+        return {'config ' + section: {c: False for c in by_config}, 'flags': flags, 'entry point': 'git-nbdiffdriver diff' if driver else 'nbdiff'}
     if form in ('negative', 'positive'):
         import argparse
         parser = argparse.ArgumentParser()
